@@ -72,13 +72,13 @@ CanaryRules == {"ref_ok", "ref_sibling", "ref_ext_sibling", "unresolved", "extra
                 "content_missing", "responses_missing", "value_missing", "operation_missing", "url_missing",
                 "default_missing", "dup_param", "examples_mismatch", "value_and_external", "null_member"}
 CanaryVars == {"min", "ref", "external", "bogus", "number", "body", "form", "simple", "absent", "twice", "query_simple", "both", "null"}
-ModeVars == {m.bad : m \in ModeLeaves} \cup {m.ok : m \in ModeLeaves}
+ModeVars == {m.bad : m \in ModeLeaves \cup MapLeaves} \cup {m.ok : m \in ModeLeaves \cup MapLeaves}
 Canary(lf) == (lf.rule \in CanaryRules \cup {"none"}) /\ lf.var \in CanaryVars \cup ModeVars
 (* a leaf whose verdict depends on the mode of the place: the violation where the mode is in viol, the conforming twin elsewhere; *)
 (* tried at media types and headers everywhere, at schemas where they are the schema of a media type / parameter / header / component *)
 ModeLeafOK(p, lf) ==
    LET mode == ModeOf(ViaOfPath(p)) IN
-   /\ \A m \in ModeLeaves : /\ ((lf.var = m.bad) => (mode \in m.viol))
+   /\ \A m \in ModeLeaves \cup MapLeaves : /\ ((lf.var = m.bad) => (mode \in m.viol))
                              /\ ((lf.var = m.ok) => (mode \notin m.viol))
    /\ (KindAt(p) = "schema" /\ Len(p) > 0) => p[Len(p)].from # "schema"
 
